@@ -77,7 +77,7 @@ class IndexApi:
                     tmpdir = tempfile.mkdtemp(prefix='eq-', dir=envctl.scratch_root())
                     other = diskcache.Index(tmpdir, pairs)
                 try:
-                    r = (x == other)
+                    r = (not (x != other)) if a.get('ne') else (x == other)     # != is its own method of Index
                 finally:
                     if tmpdir is not None:
                         other.cache.close()
@@ -252,7 +252,7 @@ def random_ops(rng, n, vals=None, lifecycle=True):
         elif r < 0.86:
             o = {'op': 'view', 'a': {'what': rng.choice(['keys', 'values', 'items']), 'rev': rng.randrange(2)}}
         elif r < 0.93:
-            o = {'op': 'eq', 'a': {'other': 'CURRENT', 'ordered': rng.choice([0, 1, 2]), 'shuffle': rng.randrange(2), 'mutate': rng.random() < 0.3}}
+            o = {'op': 'eq', 'a': {'other': 'CURRENT', 'ordered': rng.choice([0, 1, 2]), 'shuffle': rng.randrange(2), 'mutate': rng.random() < 0.3, 'ne': rng.randrange(2)}}
         elif r < 0.95:
             o = {'op': 'clear', 'a': {}}
         elif lifecycle:
